@@ -2,6 +2,7 @@
 
 E1 product: link target kind x target spelling (abs/rel) x trailing slashes 0..3 x reached directly or
 through a linked parent x volume placement; put, then restore."""
+import os
 import sys
 
 from .. import cell, scen, world
@@ -16,16 +17,16 @@ LEVEL_TEXT = ('all combinations of link target kind, absolute/relative target te
               'must have moved the link itself (same readlink) and restore must recreate it')
 LEVEL_NOTE = 'trusted: CPython/shutil, tmpfs, shim mount rules; the own mtime of a symlink is not compared (shutil.move recreates links)'
 RULE = ('product of target kind (file, dir, nothing, link->file, link->dir, other-volume file, other-volume dir) x target text '
-        '(abs, rel) x slashes (0-3) x reach (direct, via linked parent) x placement (home volume, other volume); non-trivial = '
+        '(abs, rel) x slashes (0-3) x reach (direct, via linked parent) x placement (home volume, other volume, other volume with blocked trash dirs + home fallback = cross-device move); a same-named regular file is trashed before the link is restored; non-trivial = '
         'the argument passed the existence screening; distinct = outcome class x all dimensions')
 TARGETS = ['file', 'dir', 'nothing', 'chain-file', 'chain-dir', 'xvol-file', 'xvol-dir']
 FORMS = ['abs', 'rel']
 REACH = ['direct', 'linked-parent']
-PLACE = ['home', 'vol']
+PLACE = ['home', 'vol', 'vol-fallback']
 
 
 def dimensions(tier):
-    return {'target': len(TARGETS), 'form': 2, 'slashes': 4, 'reach': 2, 'placement': 2}
+    return {'target': len(TARGETS), 'form': 2, 'slashes': 4, 'reach': 2, 'placement': 3}
 
 
 def cases(tier):
@@ -42,6 +43,10 @@ def cases(tier):
 def run_case(c):
     B = '/home/u/w' if c['place'] == 'home' else '/mnt/v1/w'
     W = scen.base_world(mounts=['/', '/mnt/v1', '/mnt/v2'], cwd=B)
+    putopts, putenv = [], {'HOME': '/home/u'}
+    if c['place'] == 'vol-fallback':
+        W.file('/mnt/v1/.Trash', 'blocked').file('/mnt/v1/.Trash-0', 'blocked')
+        putopts, putenv = ['--home-fallback'], {'HOME': '/home/u', 'TRASH_ENABLE_HOME_FALLBACK': '1'}
     W.dir(B).dir(B + '/real')
     W.file(B + '/real/tfile', 'target file\n', mode=0o600)
     W.dir(B + '/real/tdir', mode=0o750).file(B + '/real/tdir/child', 'child\n')
@@ -68,12 +73,17 @@ def run_case(c):
     with cell.Sandbox(W.spec()) as sb:
         orig = sb.snapshot()
         den = sb.denote([arg], cwd=B)[0]
-        r = sb.run(['trash-put', arg], cwd=B, now='2024-03-03T03:03:03')
+        r = sb.run(['trash-put'] + putopts + [arg], cwd=B, now='2024-03-03T03:03:03', env=putenv)
         mid = sb.snapshot()
         cl = scen.classify_put(orig, mid, E)
         r2 = None
         if cl['state'] == 'TRASHED':
-            r2 = sb.run(['trash-restore', '/'], stdin='0\n', cwd='/')
+            # history: a regular file with the same base name is trashed from another directory before the link is restored
+            os.makedirs(sb.root + B + '/elsewhere', exist_ok=True)
+            with open(sb.root + B + '/elsewhere/lnk', 'w') as f:
+                f.write('same name, regular file\n')
+            r1 = sb.run(['trash-put'] + putopts + ['elsewhere/lnk'], cwd=B, now='2024-03-04T03:03:03', env=putenv)
+            r2 = sb.run(['trash-restore', '--sort', 'date', '/'], stdin='0\n', cwd='/')
             fin = sb.snapshot()
     detail = {'arg': arg, 'link_text': text, 'exit': r.exit, 'err': r.err[-300:], 'state': cl['state'], 'why': cl['why']}
     dims = '|'.join('%s=%s' % (k, c[k]) for k in ('target', 'form', 'slashes', 'reach', 'place'))
